@@ -250,7 +250,7 @@ class Exec(Ops):
     if name in C.LEMMAS:
       return C.LEMMAS[name]
     mg = self.spec.module_globals.get(name)
-    if isinstance(mg, (Sort, C.SpecFn)):
+    if isinstance(mg, (Sort, C.SpecFn, UFn)):
       return mg
     raise KeyError(name)
 
@@ -313,6 +313,9 @@ class Exec(Ops):
             if fn == attr:
               return SV(U.field_sort(c.name, fn), U.acc(c.name, fn, b.t))
         raise OutsideSubset(f'{U} has no field {attr}')
+      meth = self.record_method(b, attr)
+      if meth is not None:
+        return meth
       owners = [c for c in U.ctors.values() if c.payload is None and any(fn == attr for fn, _ in c.fields)]
       if owners:
         ok = z3.Or(*[U.is_(c.name, b.t) for c in owners])
@@ -335,6 +338,38 @@ class Exec(Ops):
     if isinstance(b, SV) and getattr(b.sort, 'fields', None) is not None:
       return self.obj_getattr(b, attr)
     return BoundMethod(base, attr)
+
+  def record_method(self, b, attr):
+    """method lookup on an object-like union value: '<Class>.<attr>' in the sidecar bindings,
+    or the dataclass `replace`."""
+    U = b.sort
+    objc = [c for c in U.ctors.values() if c.payload is None and c.fields and not c.is_const]
+    for c in objc:
+      if any(fn == attr for fn, _ in c.fields):
+        return None
+    for c in objc:
+      for cls in c.pytypes:
+        key = f'{cls}.{attr}'
+        if key in self.spec.bindings:
+          self.used_externals.add(key)
+          tgt = self.spec.bindings[key]
+          return Handler(key, lambda ex, a, kw, tgt=tgt, b=b: ex.call_value(tgt, [b] + list(a), kw))
+    if attr == 'replace' and len(objc) == 1 and len(U.ctors) == 1:
+      c = objc[0]
+
+      def do_replace(ex, a, kw, c=c, b=b, U=U):
+        if a:
+          raise OutsideSubset('replace() with positional arguments')
+        ts = []
+        for fn, _ in c.fields:
+          fs = U.field_sort(c.name, fn)
+          ts.append(ex.coerce(ex.escape(kw[fn]), fs).t if fn in kw else U.acc(c.name, fn, b.t))
+        extra = set(kw) - {fn for fn, _ in c.fields}
+        if extra:
+          raise OutsideSubset(f'replace() of unknown fields {extra}')
+        return SV(U, U.mk(c.name, *ts))
+      return Handler('dataclasses.replace', do_replace, 'struct.dataclass replace: new instance, named fields changed')
+    return None
 
   def e_BoolOp(self, n, env):
     is_and = isinstance(n.op, ast.And)
@@ -405,9 +440,9 @@ class Exec(Ops):
     if isinstance(a, PyTuple) and isinstance(b, PyTuple) and len(a) == len(b):
       return PyTuple(self.ite(c, x, y) for x, y in zip(a, b))
     sa, sb = self.sort_of(a), self.sort_of(b)
-    if isinstance(a, Lit) and sb is not None:
+    if (isinstance(a, Lit) or a is NONEV) and sb is not None and sb is not NONE:
       a = self.coerce(a, sb)
-    elif isinstance(b, Lit) and sa is not None:
+    elif (isinstance(b, Lit) or b is NONEV) and sa is not None and sa is not NONE:
       b = self.coerce(b, sa)
     a, b = self.lift(a), self.lift(b)
     if a.sort.name != b.sort.name:
